@@ -90,7 +90,15 @@ def emit(nl, modname, in_names, out_names, const_inputs=None):
         if c.clk_edge != 'pos':
             raise Unsupported("negedge clock")
         if isinstance(c, _nir.FlipFlop) and not (c.arst.is_const and c.arst.const == 0):
-            raise Unsupported("async reset")
+            # an async reset is acceptable only when it is a top-level input tied to constant 0
+            ok_arst = False
+            if (not c.arst.is_const) and c.arst.cell == 0:
+                for nm, (start, width) in top.ports_i.items():
+                    if start <= c.arst.bit < start + width and nm in const_inputs \
+                            and ((const_inputs[nm] >> (c.arst.bit - start)) & 1) == 0:
+                        ok_arst = True
+            if not ok_arst:
+                raise Unsupported("async reset")
         if c.clk not in clocks:
             clocks.append(c.clk)
     # name the clock inputs
@@ -308,7 +316,7 @@ def emit(nl, modname, in_names, out_names, const_inputs=None):
                 elif op in tbls: e = f"{tbls[op]} {iw} {a[0]} {a[1]}"
                 else: raise Unsupported(f"binary operator {op}")
             elif n == 3 and op == 'm':
-                e = f"match {a[0]} with 0 => {a[2]} | _ => {a[1]} end"
+                e = f"sel {a[0]} {a[1]} {a[2]}"
             else:
                 raise Unsupported(f"operator {op}/{n}")
             A(f"  let c{i} := {e} in")
@@ -322,16 +330,19 @@ def emit(nl, modname, in_names, out_names, const_inputs=None):
         elif isinstance(c, _nir.PriorityMatch):
             A(f"  let c{i} := op_pmatch {val(c.en)} {val(c.inputs)} in")
         elif isinstance(c, _nir.AssignmentList):
-            A(f"  let c{i} := {val(c.default)} in")
-            for a in c.assignments:
+            cur = f"c{i}_0" if c.assignments else f"c{i}"
+            A(f"  let {cur} := {val(c.default)} in")
+            for k, a in enumerate(c.assignments):
                 aw = len(a.value)
                 if a.start + aw > w:
                     raise Unsupported("out-of-range assignment")
                 if a.start == 0 and aw == w:
                     upd = val(a.value)
                 else:
-                    upd = f"setbits c{i} {a.start} {aw} {val(a.value)}"
-                A(f"  let c{i} := match {val(a.cond)} with 0 => c{i} | _ => {upd} end in")
+                    upd = f"(setbits {cur} {a.start} {aw} {val(a.value)})"
+                nxt_name = f"c{i}" if k == len(c.assignments) - 1 else f"c{i}_{k + 1}"
+                A(f"  let {nxt_name} := sel {val(a.cond)} {upd} {cur} in")
+                cur = nxt_name
         elif isinstance(c, _nir.Part):
             if c.value_signed:
                 raise Unsupported("signed Part")
@@ -356,19 +367,22 @@ def emit(nl, modname, in_names, out_names, const_inputs=None):
             for wp in c.transparent_for:
                 wc = cells[wp]
                 rd = f"(mem_transparent {rd} {mw} {val(c.addr)} {val(wc.addr)} {val(wc.en)} {len(wc.en)} {val(wc.data)})"
-            e = f"match {val(c.en)} with 0 => c{i} | _ => {rd} end"
+            e = f"sel {val(c.en)} {rd} c{i}"
         t = tick_of(c.clk)
-        if t: e = f"match {t} with 0 => c{i} | _ => {e} end"
+        if t: e = f"sel {t} ({e}) c{i}"
         A(f"  let n{i} := {e} in")
         nxt.append(f"N.shiftl n{i} {lo}" if lo else f"n{i}")
     for i, (lo, w, depth, iv) in mem_slot.items():
-        A(f"  let nm{i} := m{i} in")
+        cur = f"m{i}"; k = 0
         for j, wc in enumerate(cells):
             if isinstance(wc, _nir.SyncWritePort) and wc.memory == i:
-                e = f"mem_write nm{i} {w} {depth} {val(wc.addr)} {val(wc.en)} {len(wc.en)} {val(wc.data)}"
+                e = f"mem_write {cur} {w} {depth} {val(wc.addr)} {val(wc.en)} {len(wc.en)} {val(wc.data)}"
                 t = tick_of(wc.clk)
-                if t: e = f"match {t} with 0 => nm{i} | _ => {e} end"
-                A(f"  let nm{i} := {e} in")
+                if t: e = f"sel {t} ({e}) {cur}"
+                k += 1
+                A(f"  let nm{i}_{k} := {e} in")
+                cur = f"nm{i}_{k}"
+        A(f"  let nm{i} := {cur} in")
         nxt.append(f"N.shiftl nm{i} {lo}" if lo else f"nm{i}")
     # ---- outputs
     top_out = dict(top.ports_o)
